@@ -541,9 +541,33 @@ async fn writing_acceptor(s: S, readiness: bool) -> turmoil::Result {
     let l = TcpListener::bind(("0.0.0.0", 81)).await?;
     loop {
         let id = op_start(&s, "p1", "accept", None);
-        let (mut st, _) = l.accept().await?;
+        let (st, _) = l.accept().await?;
         op_done(&s, id, "ok".into());
         let cs = s.borrow().step;
+        // the accepted stream is used by two tasks: one keeps writing into the victim's full
+        // window, the other sits in read (the victim never writes): both must be released
+        // when the victim goes away
+        // (the readiness API exists on the whole stream only: that variant keeps one writer task)
+        enum W {
+            Whole(TcpStream),
+            Half(turmoil::net::tcp::OwnedWriteHalf),
+        }
+        let mut st = if readiness {
+            W::Whole(st)
+        } else {
+            let (mut rd, wr) = st.into_split();
+            let s3 = s.clone();
+            tokio::task::spawn_local(async move {
+                let id = op_start(&s3, "p1", "read", Some(cs.saturating_sub(1)));
+                let mut b = [0u8; 4];
+                match rd.read(&mut b).await {
+                    Ok(0) => op_done(&s3, id, "eof".into()),
+                    Ok(n) => op_done(&s3, id, format!("ok {n}")),
+                    Err(e) => op_done(&s3, id, errk(&e)),
+                }
+            });
+            W::Half(wr)
+        };
         let s2 = s.clone();
         tokio::task::spawn_local(async move {
             let mut i = 0u8;
@@ -551,7 +575,11 @@ async fn writing_acceptor(s: S, readiness: bool) -> turmoil::Result {
                 i = i.wrapping_add(1);
                 // the connection was requested one step before it is accepted here
                 let id = op_start(&s2, "p1", "write", Some(cs.saturating_sub(1)));
-                match put(&mut st, i, readiness).await {
+                let r = match &mut st {
+                    W::Whole(w) => put(w, i, true).await,
+                    W::Half(h) => h.write_all(&[i]).await,
+                };
+                match r {
                     Ok(()) => op_done(&s2, id, "ok".into()),
                     Err(e) => {
                         op_done(&s2, id, errk(&e));
